@@ -217,6 +217,26 @@ def islamicRef (p : Nat) (civil : Bool) : Ref :=
   { leap := islamicLeap p, fixed := fixedFromIslamic p civil, monthLength := islamicMonthLength p,
     months := fun _ => 12, firstMonth := 1, fromYear := 1 }
 
+def hebrewCivilRef : Ref :=
+  { leap := hebrewLeap, fixed := fun y k d => fixedFromHebrew y (hebrewCivilToScriptural y k) d,
+    monthLength := fun y k => lastDayOfHebrewMonth y (hebrewCivilToScriptural y k),
+    months := lastMonthOfHebrewYear, firstMonth := 1, fromYear := 1 }
+
+def hebrewScripturalRef : Ref :=
+  { leap := hebrewLeap, fixed := fixedFromHebrew, monthLength := lastDayOfHebrewMonth,
+    months := lastMonthOfHebrewYear, firstMonth := 7, fromYear := 1 }
+
+def persianSimpleRef : Ref :=
+  { leap := persianSimpleLeap, fixed := fixedFromPersianSimple,
+    monthLength := fun y m => persianMonthLength (persianSimpleLeap y) m,
+    months := fun _ => 12, firstMonth := 1, fromYear := 1 }
+
+/-- stated from year 475, the anchor of the 2820-year cycle -/
+def persianArithmeticRef : Ref :=
+  { leap := persianArithmeticLeap, fixed := fixedFromPersianArithmetic,
+    monthLength := fun y m => persianMonthLength (persianArithmeticLeap y) m,
+    months := fun _ => 12, firstMonth := 1, fromYear := 475 }
+
 def refOf : Nat → Option Ref
   | 0 | 1 => some { leap := gregorianLeap, fixed := fixedFromGregorian, monthLength := fun y m => gjMonthLength (gregorianLeap y) m,
                     months := fun _ => 12, firstMonth := 1, fromYear := -9998 }
@@ -224,17 +244,10 @@ def refOf : Nat → Option Ref
                 months := fun _ => 12, firstMonth := 1, fromYear := -9997 }
   | 3 => some { leap := copticLeap, fixed := fixedFromCoptic, monthLength := copticMonthLength,
                 months := fun _ => 13, firstMonth := 1, fromYear := 1 }
-  | 4 => some { leap := hebrewLeap, fixed := fun y k d => fixedFromHebrew y (hebrewCivilToScriptural y k) d,
-                monthLength := fun y k => lastDayOfHebrewMonth y (hebrewCivilToScriptural y k),
-                months := lastMonthOfHebrewYear, firstMonth := 1, fromYear := 1 }
-  | 5 => some { leap := hebrewLeap, fixed := fixedFromHebrew, monthLength := lastDayOfHebrewMonth,
-                months := lastMonthOfHebrewYear, firstMonth := 7, fromYear := 1 }
-  | 6 => some { leap := persianSimpleLeap, fixed := fixedFromPersianSimple,
-                monthLength := fun y m => persianMonthLength (persianSimpleLeap y) m,
-                months := fun _ => 12, firstMonth := 1, fromYear := 1 }
-  | 7 => some { leap := persianArithmeticLeap, fixed := fixedFromPersianArithmetic,
-                monthLength := fun y m => persianMonthLength (persianArithmeticLeap y) m,
-                months := fun _ => 12, firstMonth := 1, fromYear := 475 }
+  | 4 => some hebrewCivilRef
+  | 5 => some hebrewScripturalRef
+  | 6 => some persianSimpleRef
+  | 7 => some persianArithmeticRef
   | 9 => some (islamicRef 1 false) | 10 => some (islamicRef 2 false)
   | 11 => some (islamicRef 3 false) | 12 => some (islamicRef 4 false)
   | 13 => some (islamicRef 1 true) | 14 => some (islamicRef 2 true)
